@@ -104,7 +104,15 @@ def run(ctx):
         overlapping = False
         if rng.random() < 0.35 and k >= 2:
             i = rng.randrange(k - 1)
-            rs[i] = (rs[i][0], rs[i + 1][0] + rng.choice([0.25, 0.5, 3.0]))
+            style = rng.choice(["extend", "same-start", "nested"])
+            if style == "extend":
+                rs[i] = (rs[i][0], rs[i + 1][0] + rng.choice([0.25, 0.5, 3.0]))
+            elif style == "same-start":        # two ranges with one lower end point and different upper ones
+                rs[i + 1] = (rs[i][0], rs[i][1] + rng.choice([0.25, 1.0, -0.125]))
+                if rs[i + 1][1] <= rs[i + 1][0]:
+                    rs[i + 1] = (rs[i][0], rs[i][1] + 0.25)
+            else:                               # one range strictly inside another
+                rs[i + 1] = (rs[i][0] + (rs[i][1] - rs[i][0]) / 4.0, rs[i][1] - (rs[i][1] - rs[i][0]) / 4.0)
             overlapping = True
         rng.shuffle(rs)
         labels = list(range(1, k + 1))
